@@ -38,7 +38,7 @@ impl AsyncWrite for FaultIo {
 
 #[derive(Default)]
 struct View { status: String, got: Vec<u64>, in_call: bool, lastres: String }
-enum Cmd { Next, Finish }
+enum Cmd { Next, Finish, NextCancelled }
 
 pub fn response_bytes(mid: i64, kind: &str, tok: u64) -> Vec<u8> {
     let t = tok.to_string();
@@ -90,6 +90,7 @@ async fn run_script(steps: Vec<String>) -> (String, Option<String>) {
     let mut table_reset = false;     // after a T step message ids no longer follow the start order
     let mut faulted = false;
     let mut abandoned: Vec<i64> = vec![];
+    let mut raw_bad: Option<String> = None;
     for tok in &steps {
         let f: Vec<&str> = tok.split(':').collect();
         match f[0] {
@@ -127,6 +128,13 @@ async fn run_script(steps: Vec<String>) -> (String, Option<String>) {
                                             v.lastres = match r { Ok(Some(re)) => { let t = item_token(&re); v.got.push(t); format!("item:{}", t) } Ok(None) => "none".into(), Err(e) => format!("err:{}", err_class(&e)) };
                                             v.status = state_str(st.state()).into();
                                         }
+                                        Cmd::NextCancelled => {
+                                            // polled exactly once; a call that does not complete at once is dropped (select!/timeout around next())
+                                            let r = st.next().now_or_never();
+                                            let mut v = view.lock().unwrap();
+                                            if let Some(r) = r { v.lastres = match r { Ok(Some(re)) => { let t = item_token(&re); v.got.push(t); format!("item:{}", t) } Ok(None) => "none".into(), Err(e) => format!("err:{}", err_class(&e)) }; }
+                                            v.status = state_str(st.state()).into();
+                                        }
                                         Cmd::Finish => {
                                             let r = st.finish().await;
                                             let mut v = view.lock().unwrap();
@@ -162,12 +170,25 @@ async fn run_script(steps: Vec<String>) -> (String, Option<String>) {
                 }
             }
             "A" => { tokio::time::advance(Duration::from_millis(f[1].parse().unwrap())).await; }
-            "N" | "F" => { let o: usize = f[1].parse().unwrap(); if let Some(Some(tx)) = cmds.get(o) { let _ = tx.send(if f[0] == "N" { Cmd::Next } else { Cmd::Finish }); } }
+            "N" | "F" | "C" => { let o: usize = f[1].parse().unwrap(); if let Some(Some(tx)) = cmds.get(o) { let _ = tx.send(if f[0] == "N" { Cmd::Next } else if f[0] == "C" { Cmd::NextCancelled } else { Cmd::Finish }); } }
+            "M" => {
+                // several complete responses in ONE write (f[1] = 0) or cut in two at f[1] percent of the burst
+                let mut all = vec![];
+                for part in f[2].split(',') { let g: Vec<&str> = part.split('.').collect(); let (mid, tokn): (i64, u64) = (g[0].parse().unwrap(), g[2].parse().unwrap());
+                    all.extend(response_bytes(mid, g[1], tokn)); if server_open { sent_by_id.entry(mid).or_default().push(tokn); } }
+                if server_open { let pct: usize = f[1].parse().unwrap(); let cut = all.len() * pct / 100;
+                    if cut > 0 { let _ = server.write_all(&all[..cut]).await; for _ in 0..20 { tokio::task::yield_now().await; } }
+                    let _ = server.write_all(&all[cut..]).await; }
+            }
             "X" => { faulted = true; match f[1] {
                 "eof" => { if server_open { let _ = server.shutdown().await; server_open = false; } }
                 "garbage" => { if server_open { let _ = server.write_all(&[0x30, 0x03, 0x02, 0x01]).await; let _ = server.write_all(&[0x05, 0xff, 0xff]).await; } }
                 "rderr" => { faults.lock().unwrap().read_err = true; if server_open { let _ = server.write_all(&[0x30]).await; } }
                 "wrerr" => { faults.lock().unwrap().write_err = true; }
+                "raw" => { if server_open { let b = crate::text::unhex(f[2]); let mut min = true;
+                    let complete = b.len() >= 2 && b[1] < 0x80 && b.len() >= 2 + b[1] as usize;
+                    if complete && !matches!(ownber::read(&b, &mut min, 0), ownber::Own::Ok(..)) { raw_bad = Some(f[2].to_string()); }
+                    let _ = server.write_all(&b).await; } }
                 _ => {}
             } },
             "H" => { main = None; }
@@ -198,6 +219,8 @@ async fn run_script(steps: Vec<String>) -> (String, Option<String>) {
         // ---- oracles, independent of the model
         if drv == "panic" { oracle.get_or_insert("the connection driver panicked".into()); }
         if drv != "running" && !eof && server_open { oracle.get_or_insert("the driver ended but the transport was not closed".into()); }
+        // C04: a frame that has arrived in full and is not a BER element can never be completed by later bytes: the driver must end
+        if let Some(h) = &raw_bad { if drv == "running" { oracle.get_or_insert(format!("the undecodable frame {} arrived in full but the driver is still waiting (pending operations would hang)", h)); } }
         for (i, v) in views.iter().enumerate() {
             let v = v.lock().unwrap();
             // C01: everything an operation was handed was sent under its own message id, in the order sent
@@ -253,10 +276,21 @@ fn gen_script(rng: &mut Rng, len: usize, flavour: u64) -> String {
             g.toks += 1;
             let k = if kind == "sd" { *rng.pick(&["e", "e", "e", "r", "i", "d", "d", "o"]) } else if kind == "sa" { *rng.pick(&["e", "e", "e", "d", "d", "o"]) } else { *rng.pick(&["x", "x", "x", "o", "d"]) };
             s.push(format!("R:{}:{}:{}", mid, k, g.toks));
-        } else if roll < 70 { s.push(format!("A:{}", *rng.pick(&[1u64, 999, 1000, 1001, 4000, 5000]))); }
+        } else if roll < 66 { s.push(format!("A:{}", *rng.pick(&[1u64, 999, 1000, 1001, 4000, 5000]))); }
+        else if roll < 70 {
+            // a burst: 2..4 responses (an unsolicited one among them half of the time) in one write, or cut at an arbitrary point
+            let k = 2 + rng.below(3); let mut parts = vec![];
+            let unsol_at = if rng.chance(1, 2) { rng.below(k) } else { 99 };
+            for j in 0..k { g.toks += 1;
+                if j == unsol_at { parts.push(format!("{}.x.{}", *rng.pick(&[0i64, 0, 99]), g.toks)); continue; }
+                let (mid, kind) = pick_mid(rng, &g);
+                let kk = if kind == "sd" { *rng.pick(&["e", "e", "r", "i", "d"]) } else if kind == "sa" { *rng.pick(&["e", "e", "d"]) } else { "x" };
+                parts.push(format!("{}.{}.{}", mid, kk, g.toks)); }
+            s.push(format!("M:{}:{}", *rng.pick(&[0u64, 0, 0, 17, 50, 83]), parts.join(",")));
+        }
         else if roll < 92 {
             let streams: Vec<usize> = g.kinds.iter().enumerate().filter(|(_, k)| *k == "sd" || *k == "sa").map(|(i, _)| i).collect();
-            if let Some(&o) = streams.get(rng.below(streams.len().max(1) as u64) as usize) { if rng.chance(3, 4) { s.push(format!("N:{}", o)); } else { s.push(format!("F:{}", o)); } } else { s.push("A:1".into()); }
+            if let Some(&o) = streams.get(rng.below(streams.len().max(1) as u64) as usize) { if g.kinds[o] == "sd" && rng.chance(1, 6) { s.push(format!("C:{}", o)); } else if rng.chance(3, 4) { s.push(format!("N:{}", o)); } else { s.push(format!("F:{}", o)); } } else { s.push("A:1".into()); }
         } else if roll < 97 && flavour == 3 && !ended {
             s.push(format!("X:{}", *rng.pick(&["eof", "garbage", "rderr", "wrerr", "eof"]))); ended = true;
         } else if flavour == 3 && rng.chance(1, 2) { s.push("H".into()); } else { s.push("A:1".into()); }
@@ -285,9 +319,14 @@ pub fn gen_faults(rng: &mut Rng, n: usize, out: &mut Vec<String>) {
         vec!["S:single:-", "S:single:-", "S:sd:-", "N:2", "R:3:r:1", "R:2:x:2", "S:unbind:-"],
     ];
     let mut count = 0;
+    let mut raw: Vec<Vec<u8>> = vec![];
+    for (mid, k) in [(1i64, "x"), (2, "e"), (2, "d"), (1, "r"), (3, "i"), (0, "x")] { raw.extend(crate::lanes::frame::header_cuts(&response_bytes(mid, k, 9))); }
     'outer: for ex in &exchanges {
         for cut in 0..=ex.len() {
-            for fault in ["X:eof", "X:garbage", "X:rderr", "X:wrerr S:single:-", "B:1:e:9 X:eof", "B:1:x:9 X:rderr", "H", "S:unbind:-"] {
+            let mut faults: Vec<String> = ["X:eof", "X:garbage", "X:rderr", "X:wrerr S:single:-", "B:1:e:9 X:eof", "B:1:x:9 X:rderr", "H", "S:unbind:-"].iter().map(|x| x.to_string()).collect();
+            // undecodable frames that arrive in full: a nested element cut inside its header (three per cut point, rotating through the family)
+            for j in 0..3 { let fam = &raw[(count / 11 * 3 + j * 7) % raw.len()]; faults.push(format!("X:raw:{}", crate::text::hex(fam))); }
+            for fault in faults {
                 let mut s: Vec<String> = ex[..cut].iter().map(|x| x.to_string()).collect();
                 s.push(fault.to_string());
                 // afterwards: poke every stream and start one more operation (must fail at once)
